@@ -9,7 +9,7 @@ PROP = "C19"
 LEVEL = "exploration"
 RULE = ("sequences of 2..6 back-to-back SDO client transfers (upload / download, sizes 1..2000 incl. every size 1..600 once per direction, "
         "timeouts 5..500 ms, idle gaps) against a scripted reference server that is conforming, aborts / goes silent / answers late at step "
-        "k (k over every step of the transfer), or sends wrong-toggle, wrong-multiplexer, wrong-kind, oversized or early-end responses; "
+        "k (k over every step of the transfer), answers exactly around the expiry of the timeout with the timer event served but not yet processed (either outcome, exactly once), or sends wrong-toggle, wrong-multiplexer, wrong-kind, oversized or early-end responses; "
         "checked per transfer: exactly one completion callback with the right code and tick, request frames equal to the reference "
         "client's (command, size, toggle, last marking, data), user buffer content (exact-size buffer under ASan), busy refusal, and after "
         "completion: client idle, no client timer left (pool occupancy), the next transfer unaffected; non-trivial = sequence with >= 1 "
@@ -34,7 +34,8 @@ class Transfer:
         self.timeout = rng.choice([5, 10, 50, 100, 500])
         nsteps = 1 if self.size <= 4 else 1 + (self.size + 6) // 7
         self.nsteps = nsteps
-        self.behaviour = rng.choice(["ok"] * 6 + ["abort", "abort", "silent", "late", "toggle", "mux", "kind", "early", "oversize"])
+        self.behaviour = rng.choice(["ok"] * 6 + ["abort", "abort", "silent", "late", "toggle", "mux", "kind", "early", "oversize", "race", "race"])
+        self.race_n = self.timeout + rng.choice([-1, 0, 0, 0, 1, 3])
         self.abort_code = rng.choice([0x06020000, 0x05040000, 0x05040000, 0x06010002, 0x08000000, 0x06070010, 0x05030000, 0x00000001, 0xFFFFFFFF])
         self.k = rng.randrange(nsteps)
         if self.behaviour in ("toggle", "early", "oversize") and self.size <= 4:
@@ -176,11 +177,29 @@ def run_sequence(res, exe, rng, first, forced=None):
                             return fail("late-answer", desc + ": late answer caused %r / %r" % (frames(evs), callbacks(evs)))
                     done = TIMEOUT_CODE
                     break
-                evs = sim.rx(RX, resp)
+                if beh == "race":
+                    # the answer arrives around the expiry of the timeout: the tick interrupts have been served (the timeout event
+                    # waits in the elapsed list), the answer is handled by CONodeProcess(), then the timer processing runs
+                    evs = sim.cmd("svc %d" % tr.race_n) + sim.rx(RX, resp) + sim.cmd("tproc")
+                    res.counters["race_steps"] += 1
+                else:
+                    evs = sim.rx(RX, resp)
                 fr = frames(evs)
                 cb = callbacks(evs)
                 for iv in S.invs(evs):
                     return fail("inv", "invariant " + iv)
+                if beh == "race" and any(c[3] == TIMEOUT_CODE for c in cb):
+                    if len(cb) != 1:
+                        return fail("callback-count/race", desc + ": answer at the expiry of the timeout (svc %d): callbacks %r, reference exactly one" % (tr.race_n, cb))
+                    if tr.race_n < tr.timeout:
+                        return fail("timeout/early", desc + ": answer %d ticks after the request was met with a timeout" % tr.race_n)
+                    if (TX, bytes([0x80]) + m3 + TIMEOUT_CODE.to_bytes(4, "little")) not in [(c, d) for (_, c, d) in fr] or any(c != TX for (_, c, d) in fr):
+                        return fail("timeout/frame", desc + ": timeout at the race step without abort frame: %r" % [("%x" % c, d.hex()) for _, c, d in fr])
+                    res.counters["race_timeout_won"] += 1
+                    done = TIMEOUT_CODE
+                    break
+                if beh == "race":
+                    res.counters["race_answer_won"] += 1
                 if final_after or expect_code in ("nonzero",) or (expect_code not in (0, None) and expect_code != "any"):
                     # completion expected now
                     if expect_code == "any":
